@@ -1219,6 +1219,14 @@ Error JitAllocator::query(Out<Span> out, void* rx) const noexcept {
     return make_error(Error::kInvalidArgument);
   }
 
+  // The pointer can point inside of an allocation - the allocation starts right after the end (stop bit) of the previous one,
+  // after an unused area, or after the initial padding of the block.
+  while (area_start > block->initial_area_start() &&
+         Support::bit_vector_get_bit(block->_used_bit_vector, area_start - 1u) &&
+         !Support::bit_vector_get_bit(block->_stop_bit_vector, area_start - 1u)) {
+    area_start--;
+  }
+
   uint32_t area_end = uint32_t(Support::bit_vector_index_of(block->_stop_bit_vector, area_start, true)) + 1;
   size_t byte_offset = pool->byte_size_from_area_size(area_start);
   size_t byte_size = pool->byte_size_from_area_size(area_end - area_start);
